@@ -24,6 +24,8 @@ def shapes(payload):
             cases += 1
             try:
                 got = get_vect_dim(np.zeros(lead + sp), space)
+            except TimeoutError:
+                raise
             except Exception as e:
                 return {"status": "fail", "cases": cases, "detail": f"get_vect_dim raised {type(e).__name__} for {space} and input shape {lead + sp}"}
             if got != want:
@@ -69,6 +71,8 @@ def values(payload):
                 key = f"{sp} input={form} as {conv.__name__}"
                 try:
                     out = preprocess_observation(conv(arr), sp, "cpu", True)
+                except TimeoutError:
+                    raise
                 except Exception as e:
                     return {"status": "fail", "cases": cases, "witness_key": f"{type(sp).__name__}:{form}:raises",
                             "detail": f"preprocess_observation raised {type(e).__name__}: {str(e)[:120]} for {key}"}
